@@ -234,6 +234,7 @@ def to_simplicial_complex(data, create_using=None):
         H.add_simplices_from(
             (ee.members(e), e, deepcopy(attr)) for e, attr in ee.items()
         )
+        H._net_attr = deepcopy(data._net_attr)
         return H
 
     elif isinstance(data, list):
